@@ -561,7 +561,7 @@ def predicted_faults_stage(rep, work, b, tier, seed, nseeds=None):
     every field of the encoder's field table is set to each boundary value, the patched bytes travel in the trace, and TLC
     decodes them (AseParse!Decode), loads the decoded program (AseLoad) and demands: outcome ok -> the file loads and the
     complete observation matches; err -> an error value; either/unknown -> no crash and, if it loads, a usable sprite."""
-    n = nseeds or (5 if tier == "quick" else 40)
+    n = nseeds or (3 if tier == "quick" else 40)
     seeds = work.path("pseeds.ndjson")
     r = subprocess.run([b, "gen", "--profile", "default", "--seed", str(seed + 41), "--n", str(n), "--stored", "--out", seeds], capture_output=True, text=True)
     if r.returncode != 0:
